@@ -133,7 +133,7 @@ def coq_eval(lines):
                     "Local Open Scope Z_scope.\nSet Printing Width 1000000.\nSet Printing Depth 10000000.\n")
             for i, l in enumerate(lines):
                 f.write("Definition inp%d : list Z := [%s].\n" % (i, "; ".join("(%d)" % v for v in l)))
-                f.write("Eval vm_compute in (%d, run inp%d).\n" % (i, i))
+                f.write("Eval vm_compute in (%d, run_model inp%d).\n" % (i, i))
         r = subprocess.run(["bash", "-c", "ulimit -s unlimited 2>/dev/null; exec timeout 900 coqc -Q %s/theories PGA -Q %s/gen PGAgen %s"
                             % (COQ, COQ, src)], capture_output=True, text=True, cwd=d)
         if r.returncode != 0:
@@ -172,6 +172,12 @@ def check_props(prop_id):
         info["log"] = (r.stdout + r.stderr)[-3000:]
         info["wall_s"] = time.time() - t0
         return info
+    if prop_id == "C20":
+        st = os.path.join(COQ, "gen", "STATUS")
+        if not os.path.exists(st) or open(st).read().strip() != "ok":
+            info["log"] = "translator harness/gen_tables.py failed on the current source: " + (open(st + ".err").read()[-500:] if os.path.exists(st + ".err") else "")
+            info["wall_s"] = time.time() - t0
+            return info
     src = os.path.join(COQ, "props", prop_id + ".v")
     if not os.path.exists(src):
         info["log"] = "no property file"
